@@ -141,6 +141,8 @@ pub struct InterpRun {
     pub trace: Vec<u32>,
     pub helper_log: Vec<hlp::LogEntry>,
     pub budget_hit: bool,
+    /// the same VM object was executed a second time on the restored buffers and behaved differently
+    pub repeat_mismatch: Option<String>,
 }
 
 pub const BUDGET_MSG: &str = "verif-hooks instruction budget exhausted";
@@ -150,6 +152,7 @@ pub fn run_interp(c: &Case, bufs: &Bufs, budget: u64, trace_cap: usize) -> Inter
     bufs.reset(c);
     hlp::log_reset();
     let mut trace = vec![0u32; trace_cap];
+    let mut repeat: Option<String> = None;
     let r = sys::catch(|| {
         let fam = match INTERP_FAMILY.load(std::sync::atomic::Ordering::Relaxed) {
             1 => Family::Hostile,
@@ -165,6 +168,28 @@ pub fn run_interp(c: &Case, bufs: &Bufs, budget: u64, trace_cap: usize) -> Inter
             hooks::set_trace_buffer(&mut trace);
         }
         let r = vm.exec(bufs.pkt_raw(), bufs.mbuff_raw());
+        // history independence: a quarter of the cases are executed a second time on the same VM
+        if c.prog.len() % 32 == 8 || c.prog.len() % 56 == 16 {
+            let (steps1, hash1) = (hooks::count(), hooks::pc_hash());
+            let pkt1 = bufs.pkt_bytes();
+            let nlog1 = hlp::log_total();
+            bufs.reset(c);
+            hlp::log_reset();
+            hooks::reset(budget, true);
+            hooks::clear_trace_buffer();
+            let r2 = vm.exec(bufs.pkt_raw(), bufs.mbuff_raw());
+            let same = match (&r, &r2) {
+                (Ok(a), Ok(b)) => a == b,
+                (Err(_), Err(_)) => true,
+                _ => false,
+            } && steps1 == hooks::count()
+                && hash1 == hooks::pc_hash()
+                && pkt1 == bufs.pkt_bytes()
+                && nlog1 == hlp::log_total();
+            if !same {
+                repeat = Some(format!("first execution {:?} ({steps1} steps), second execution on the same VM {:?} ({} steps)", r.as_ref().map_err(|e| e.chars().take(60).collect::<String>()), r2.as_ref().map_err(|e| e.chars().take(60).collect::<String>()), hooks::count()));
+            }
+        }
         match r {
             Ok(v) => Ran::Ok(v),
             Err(e) => Ran::Err(e),
@@ -192,6 +217,7 @@ pub fn run_interp(c: &Case, bufs: &Bufs, budget: u64, trace_cap: usize) -> Inter
         trace,
         helper_log: hlp::log_take(),
         budget_hit,
+        repeat_mismatch: repeat,
     };
     hooks::unlimited();
     out
@@ -486,6 +512,26 @@ pub fn child_run_case(c: &Case, bufs: &Bufs, engine: Engine, family: Family, out
     match r {
         Ok(Ok(v)) => {
             rec.value = v;
+            // history independence: run some cases a second time on the same compiled VM
+            if engine != Engine::Interp && (c.prog.len() % 32 == 8 || c.prog.len() % 56 == 16) {
+                let pkt1 = bufs.pkt_bytes();
+                let nlog1 = hlp::log_total();
+                bufs.reset(c);
+                hlp::log_reset();
+                let r2 = sys::catch(|| unsafe {
+                    match engine {
+                        Engine::Jit => vm.exec_jit(bufs.pkt_raw(), bufs.mbuff_raw()),
+                        #[cfg(feature = "std")]
+                        Engine::Cranelift => vm.exec_cl(bufs.pkt_raw(), bufs.mbuff_raw()),
+                        _ => Ok(v),
+                    }
+                });
+                let same = matches!(&r2, Ok(Ok(v2)) if *v2 == v) && pkt1 == bufs.pkt_bytes() && nlog1 == hlp::log_total();
+                if !same {
+                    rec.status = 6;
+                    rec.msg = format!("first execution returned {v:#x}; a second execution of the same compiled program on the restored buffers gave {:?}", r2.map(|x| x.map_err(|e| e.chars().take(60).collect::<String>())));
+                }
+            }
         }
         Ok(Err(e)) => {
             rec.status = 3;
